@@ -57,6 +57,37 @@ type upload struct {
 	Ret   uint64
 	// state of the world at the instant of the acknowledgement
 	RowAtAck, DstAtAck bool
+	// Stored: the source store accepted the blob (its ReceiveBlob returned
+	// success, no fault on that call). The blob has been received by the
+	// source: it must be delivered whether or not the client ever saw an
+	// answer. Cancelled: the client went away (its context was cancelled)
+	// right after that.
+	Stored    bool
+	Cancelled bool
+}
+
+// cancelKey carries the upload record in the upload's context; with a cancel
+// function, the client goes away right after the source store accepted the
+// blob.
+type cancelKey struct{}
+
+type cancelInfo struct {
+	cancel context.CancelFunc
+	u      *upload
+}
+
+// ReceiveBlob: see cancelKey.
+func (s *srcStore) ReceiveBlob(ctx context.Context, br blob.Ref, src io.Reader) (blob.SizedRef, error) {
+	sb, err := s.SimStore.ReceiveBlob(ctx, br, src)
+	if ci, ok := ctx.Value(cancelKey{}).(*cancelInfo); ok && err == nil {
+		ci.u.Stored = true
+		if ci.cancel != nil {
+			ci.u.Cancelled = true
+			s.r.out.Reached["upload-cancelled-after-store"]++
+			ci.cancel()
+		}
+	}
+	return sb, err
 }
 
 type fetchEv struct {
@@ -347,8 +378,8 @@ func (s *segment) drive() {
 		idx := s.base + i
 		switch op.K {
 		case "upload":
-			bi := op.B
-			r.rc.Sched.Go("up", func() { s.upload(idx, bi) })
+			bi, cancel := op.B, op.Cancel
+			r.rc.Sched.Go("up", func() { s.upload(idx, bi, cancel) })
 		case "sleep":
 			ms := op.MS
 			if ms > 120000 {
@@ -466,12 +497,20 @@ func (s *segment) build() {
 	s.sh = sh
 }
 
-func (s *segment) upload(idx, bi int) {
+func (s *segment) upload(idx, bi int, cancelAfterStore bool) {
 	r := s.r
 	b := r.pool[bi]
 	u := &upload{Op: idx, B: bi, Gen: s.no, Start: simcore.Seq()}
 	r.uploads = append(r.uploads, u)
-	_, err := blobserver.Receive(context.Background(), s.src, b.Ref, bytes.NewReader(b.Data))
+	ci := &cancelInfo{u: u}
+	ctx := context.WithValue(context.Background(), cancelKey{}, ci)
+	if cancelAfterStore {
+		c, cancel := context.WithCancel(ctx)
+		defer cancel()
+		ci.cancel = cancel
+		ctx = c
+	}
+	_, err := blobserver.Receive(ctx, s.src, b.Ref, bytes.NewReader(b.Data))
 	if s.dead() {
 		// the process died before the client saw an answer
 		select {}
@@ -504,7 +543,7 @@ func (r *run) allDelivered() bool {
 	for _, name := range names {
 		dst := r.w.Store(name)
 		for _, u := range r.uploads {
-			if !u.Acked {
+			if !u.Acked && !(u.Stored && u.Done) {
 				continue
 			}
 			b := r.pool[u.B]
